@@ -112,14 +112,31 @@ def run_case(case):
                     ref_sim[(pi, ii, si)] = _frame_key(ref.simulate(params_impl(P), initial_states=init_impl(mj, inits[ii]), vf_arr_list=Vref[pi], seed=seeds[si]))
         # the history on the first object
         hist = []
+        shared = params_impl(Pa)          # one params dict object that is changed *in place* between calls
         for step in range(r.randint(5, 9)):
             pi, ii, si = r.randrange(2), r.randrange(2), r.randrange(2)
             leaf = r.choice(["float", "numpy", "jax"])
-            target = r.choice(["solve", "simulate", "simulate"])
+            target = r.choice(["solve", "simulate", "simulate", "solve_and_simulate"])
             hist.append((target, pi, ii, si, leaf))
             P = (Pa, Pb)[pi]
             params = params_impl(P, leaf)
             before = _snapshot_params(params)
+            if target == "solve_and_simulate":
+                # same dict object as in earlier calls, new values written into it
+                fresh = params_impl(P)
+                for k_, v_ in fresh.items():
+                    if isinstance(v_, dict):
+                        for kk_, vv_ in v_.items():
+                            shared[k_][kk_] = vv_
+                    else:
+                        shared[k_] = v_
+                df = fns.solve_and_simulate(shared, initial_states=init_impl(mj, inits[ii]), seed=seeds[si])
+                evals += 1
+                if _frame_key(df) != ref_sim[(pi, ii, si)]:
+                    vs.append({"clause": "a call returns the result determined by its own arguments", "detail": f"history {hist}: solve_and_simulate with a params dict changed in place differs from a fresh function object called with the same values"})
+                if vs:
+                    break
+                continue
             if target == "solve":
                 V = [np.asarray(v) for v in fns.solve(params)]
                 diffs, st = compare_value_arrays(V, model_solve(mj, P), mj["n_periods"])
